@@ -82,6 +82,22 @@ def run(tier):
                                  {**idn, **what, "query_rows": rows, "want_mean": np.asarray(want_mu)[rows], "got_mean": mu_n}, site="GpRegressor.build_posterior:same-count")
             except Exception as ex:
                 ck.violation("GpRegressor raised on a valid problem", {**idn, **what, "error": repr(ex)[:300]}, site="GpRegressor")
+            # one query point given as a FLAT array of its coordinates (two or more dimensions): the posterior at that one point
+            if Q.shape[1] > 1:
+                try:
+                    for i_ in range(len(Q)):
+                        q1 = (Q[i_] + xshift).copy()
+                        m1_, S1_ = gp.build_posterior(q1)
+                        m1o = gp.build_posterior(q1, mean_only=True)
+                        m1_, m1o, S1_ = np.asarray(m1_, dtype=float).ravel() / c_, np.asarray(m1o, dtype=float).ravel() / c_, np.asarray(S1_, dtype=float).ravel() / (c_ * c_)
+                        if not (m1_.shape == (1,) and m1o.shape == (1,) and S1_.shape == (1,) and GE.close(m1_, np.asarray(want_mu)[i_:i_ + 1], yscale)
+                                and GE.close(m1o, np.asarray(want_mu)[i_:i_ + 1], yscale) and GE.close(S1_, np.asarray(want_cov)[i_, i_:i_ + 1], scale)):
+                            ck.violation("joint / mean-only posterior at ONE query point given as a flat array = the exact posterior at that point",
+                                         {**idn, **what, "query": q1, "want_mean": np.asarray(want_mu)[i_], "build_posterior": m1_, "mean_only": m1o},
+                                         site="GpRegressor.build_posterior:flat-point")
+                            break
+                except Exception as ex:
+                    ck.violation("GpRegressor raised on a valid problem", {**idn, **what, "error": repr(ex)[:300]}, site="GpRegressor")
             if not (GE.close(mu, want_mu, yscale) and GE.close(mu2, want_mu, yscale) and GE.close(mu3, want_mu, yscale)):
                 ck.violation("predictive mean = m(q) + K_qx (K_xx + S)^-1 (y - m(x)) (point-wise, joint and mean-only calls agree)",
                              {**idn, **what, "want": want_mu, "call": mu, "build_posterior": mu2, "mean_only": mu3}, site="GpRegressor.mean")
